@@ -159,4 +159,6 @@ func main() {
 	fmt.Fprintf(&b, "def bpMember : UInt64 := 0x%016x\n", math.Float64bits(float64(oper.BP_MEMBER)))
 	b.WriteString("\nend Yae.Gen\n")
 	writeIfChanged(filepath.Join(dir, "Consts.lean"), b.String())
+
+	writeIfChanged(filepath.Join(dir, "Shared.lean"), sharedLean("/repo"))
 }
